@@ -1,4 +1,4 @@
 (* Extraction of the C17 model: ExtrOcamlBasic only, no Extract Constant. *)
 Require Import ExtrOcamlBasic.
-From SharkV Require Import C17Model.
-Extraction "c17_model.ml" query_trace query wf_treeb tindices.
+From SharkV Require Import C17Model C17Build.
+Extraction "c17_model.ml" query_trace query wf_treeb tindices kd_build median_pos median_okb ksort.
